@@ -15,7 +15,7 @@ import (
 	"verif/harness/internal/stats"
 )
 
-const ruleBusy = "rapid: a Send that is in flight (its first node blocks until the harness releases it, context never cancelled), 0-2 goroutines issuing writing Broker calls (RegisterNode, SetSuccessThreshold, RegisterPipeline / RemovePipeline for the type whose Send is in flight) queued beside it, then a second Send whose context is cancelled before the call / 1ms after / by a 5ms timeout, and optionally a node whose Process itself issues a writing Broker call (RegisterNode) before passing the event on; oracle = the second Send returns within 3 s of its cancellation while the first is still in flight (a miss counts only if the goroutine dump shows it blocked inside the library), and once the nodes are released every call returns; non-trivial = >=1 queued writer; distinct = configuration"
+const ruleBusy = "rapid: a Send that is in flight (its first node blocks until the harness releases it, context never cancelled), 0-2 goroutines issuing writing Broker calls (RegisterNode, SetSuccessThreshold, RegisterPipeline / RemovePipeline / RemovePipelineAndNodes for the type whose Send is in flight) queued beside it, then a second Send whose context is cancelled before the call / 1ms after / by a 5ms timeout, and optionally a node whose Process itself issues a writing Broker call (RegisterNode) before passing the event on; oracle = the second Send returns within 3 s of its cancellation while the first is still in flight (a miss counts only if the goroutine dump shows it blocked inside the library), and once the nodes are released every call returns; non-trivial = >=1 queued writer; distinct = configuration"
 
 func TestC03BusyBroker(t *testing.T) {
 	sec := stats.Sec("busy_broker", ruleBusy)
@@ -25,7 +25,7 @@ func TestC03BusyBroker(t *testing.T) {
 		settleUs := rapid.SampledFrom([]int{0, 200, 2000}).Draw(t, "settleMicros")
 		reentrantWriter := rapid.IntRange(0, 3).Draw(t, "reentrantWriter") == 0
 		sameType := rapid.Bool().Draw(t, "secondSendSameType")
-		writerKind := rapid.IntRange(0, 3).Draw(t, "writerKind")
+		writerKind := rapid.IntRange(0, 4).Draw(t, "writerKind")
 		d := fmt.Sprintf("queuedWriters=%d cancel=%s settle=%dus reentrantWriterNode=%v secondSendSameType=%v writerKind=%d", writers, cancelMode, settleUs, reentrantWriter, sameType, writerKind)
 		b, _ := eventlogger.NewBroker()
 		f, m, s := simul.New("f", eventlogger.NodeTypeFilter), simul.New("m", eventlogger.NodeTypeFormatter), simul.New("s", eventlogger.NodeTypeSink)
@@ -41,6 +41,9 @@ func TestC03BusyBroker(t *testing.T) {
 		_ = b.RegisterNode("m2", simul.New("m2", eventlogger.NodeTypeFormatter))
 		_ = b.RegisterNode("s2", simul.New("s2", eventlogger.NodeTypeSink))
 		_ = b.RegisterPipeline(eventlogger.Pipeline{PipelineID: "q", EventType: "U", NodeIDs: []eventlogger.NodeID{"m2", "s2"}})
+		_ = b.RegisterNode("m3", simul.New("m3", eventlogger.NodeTypeFormatter))
+		_ = b.RegisterNode("s3", simul.New("s3", eventlogger.NodeTypeSink))
+		_ = b.RegisterPipeline(eventlogger.Pipeline{PipelineID: "rm-me", EventType: "T", NodeIDs: []eventlogger.NodeID{"m3", "s3"}})
 		var wg sync.WaitGroup
 		released := false
 		release := func() {
@@ -66,7 +69,7 @@ func TestC03BusyBroker(t *testing.T) {
 			wg.Add(1)
 			go func(i int) {
 				defer wg.Done()
-				switch (i + writerKind) % 4 {
+				switch (i + writerKind) % 5 {
 				case 0:
 					_ = b.RegisterNode("queued", simul.New("queued", eventlogger.NodeTypeFilter))
 				case 1:
@@ -76,6 +79,8 @@ func TestC03BusyBroker(t *testing.T) {
 				case 3:
 					_ = b.RemovePipeline("T", "extra")
 					_ = b.RemovePipeline("U", "q-none")
+				case 4: // a pipeline of the type whose Send is in flight is removed together with its nodes
+					_, _ = b.RemovePipelineAndNodes(context.Background(), "T", "rm-me")
 				}
 			}(i)
 		}
